@@ -171,6 +171,13 @@ Edits(d) ==
   \cup {E(51, p, InsField(d, p[1], p[2], MkScalar("zz_bit", 1)))
           : p \in FSites(d, ps, LAMBDA x, j : x.fields[j].kind \in {"array", "payload", "body"})}
   \cup {E(52, <<i, w>>, AddField(d, i, MkArray("zz_a", w, 2))) : i \in FirstPS(d), w \in {4, 12, 20}}
+  (* optional fields are no bit-fields: one that does not start on an octet boundary, one whose size is not whole octets *)
+  \cup {E(51, p \o <<"optional">>, InsField(d, p[1], p[2], MkScalar("zz_bit", 1)))
+          : p \in FSites(d, ps, LAMBDA x, j : x.fields[j].cond # "")}
+  \cup {E(52, <<i, w, "optional">>,
+           AddField(AddField(AddField(d, i, MkScalar("zz_c", 1)), i, [F0 EXCEPT !.kind = "reserved", !.width = 7]), i,
+                    [MkScalar("zz_o", w) EXCEPT !.cond = "zz_c", !.condv = 1]))
+          : i \in ps, w \in {4, 12}}
   \cup {E(53, <<i, w>>, AddField(d, i, MkScalar("zz_s", w))) : i \in ps, w \in {1, 7}}
 
 (* the legal side of each numeric boundary: these must stay accepted *)
